@@ -1,6 +1,6 @@
 (* Statement pins for the updateio area: every property theorem re-stated in full. *)
 From FlacBase Require Import Res Bits.
-From FlacUpdIo Require Import GenUpd Update Update_proofs Props_C10.
+From FlacUpdIo Require Import GenUpd Update Update_proofs Props_C10 IoFault IoFault_proofs Props_C13.
 Open Scope N_scope.
 
 Check (C10_inplace :
@@ -98,3 +98,51 @@ Check (C10_no_panic :
       is_panic (read_blocks (skipn start file)) = false ->
       (forall bl, is_panic (edit bl) = false) ->
       is_panic (snd (update_file payload psize ser uclass read_blocks edit start file)) = false).
+
+(* ---- C13 *)
+Check (C13_writer_ok_means_delivered :
+  forall (st : stack) (p : list wop) (w w' : world),
+    run_writer st p w = (Ok tt, w') ->
+    (match st with SRaw => true | SBuf _ => ends_flushed p end) = true ->
+    wdev w' = ideal p (wdev w)).
+Check (C13_encode_finalize :
+  forall (st : stack) (ck : list N -> list (list N)) (pre hdr0 : list N) (frames : list (list N)) (hdr1 : list N)
+         (sc : sched) (w' : world),
+    ck_ok ck -> length hdr1 = length hdr0 ->
+    run_writer st (encode_prog ck (length pre) hdr0 frames hdr1)
+               {| wdev := {| data := pre; pos := length pre |}; wsched := sc |} = (Ok tt, w') ->
+    data (wdev w') = pre ++ hdr1 ++ concat frames).
+Check (C13_write_blocks :
+  forall (ck : list N -> list (list N)) (bytes : list N) (d : dev) (sc : sched) (w' : world),
+    ck_ok ck ->
+    run_writer SRaw (write_blocks_prog ck bytes) {| wdev := d; wsched := sc |} = (Ok tt, w') ->
+    wdev w' = put bytes d).
+Check (C13_update_file :
+  forall (payload : Type) (psize : payload -> N) (ser : payload -> list N)
+         (uclass : okind -> payload -> option N)
+         (read_blocks : list N -> res (blocklist payload * list N)),
+    (forall s bl rest, read_blocks s = Ok (bl, rest) -> exists m, s = m ++ rest) ->
+    forall (cap : nat) (ck : list N -> list (list N)) (edit : blocklist payload -> res (blocklist payload))
+           (rb : bool) (w1 w2 : world) (b : bool) (w1' w2' : world),
+      (0 < cap)%nat -> ck_ok ck -> honest (sr (wsched w1)) ->
+      (pos (wdev w1) <= length (data (wdev w1)))%nat ->
+      wdev w2 = {| data := []; pos := 0 |} ->
+      update_file_io payload psize ser uclass read_blocks true cap ck edit rb w1 w2 = (Ok b, w1', w2') ->
+      update_file payload psize ser uclass read_blocks edit (pos (wdev w1)) (data (wdev w1)) =
+        ({| orig := data (wdev w1'); rebuilt := if b then Some (data (wdev w2')) else None |}, Ok b)).
+Check (C13_no_panic_writer :
+  forall (st : stack) (p : list wop) (w : world), is_panic (fst (run_writer st p w)) = false).
+Check (C13_no_panic_update :
+  forall (payload : Type) (psize : payload -> N) (ser : payload -> list N)
+         (uclass : okind -> payload -> option N)
+         (read_blocks : list N -> res (blocklist payload * list N)),
+    (forall p, lenN (ser p) = psize p) ->
+    forall (fixed : bool) (cap : nat) (ck : list N -> list (list N))
+           (edit : blocklist payload -> res (blocklist payload)) (rb : bool) (w1 w2 : world),
+      (forall s, is_panic (read_blocks s) = false) -> (forall bl, is_panic (edit bl) = false) ->
+      is_panic (fst (fst (update_file_io payload psize ser uclass read_blocks fixed cap ck edit rb w1 w2))) = false).
+Check (C13_read_errors_propagate :
+  (forall fuel cap need got w w1, (length got < need)%nat ->
+     dev_read cap w = (IErr false, w1) -> fill_until (S fuel) cap need got w = (Err EIo, w1)) /\
+  (forall fuel cap acc w w1,
+     dev_read cap w = (IErr false, w1) -> read_to_end (S fuel) cap acc w = (Err EIo, w1))).
